@@ -37,6 +37,8 @@ def run_scenario(scn: dict, *, total: int = 1, eager: bool = False) -> dict:
 
     def fire(act: dict) -> None:
         t = act["t"]
+        if state["tasks"][t].done():
+            return
         rec.emit(ev="creq", t=t)
         if act["c"] == "cancel":
             state["scopes"][t].cancel()
